@@ -31,7 +31,7 @@ def mc_jobs(ctx):
     jobs.append(("contents2", {"DeclSet": "{4, 7}", "StartedSet": "{TRUE, FALSE}", "MaxDefs": 2, "MaxSteps": 2 if q else 3,
                                "Acts": acts("boot", "reload", "del", "close", "fire", "call")}, inv, prop, None))
     if not q:
-        jobs.append(("session", {"DeclSet": "{6, 8, 13}", "Ctx": '{"c1", "c3"}', "MaxSteps": 6,
+        jobs.append(("session", {"DeclSet": "{6, 8}", "Ctx": '{"c1", "c3"}', "Name": '{"f"}', "MaxSteps": 5,
                                  "Acts": acts("define", "del", "push", "clear", "close", "reload", "unload", "fire")}, inv, prop, None))
     # deviation flags: the invariant each one violates
     jobs += [
